@@ -41,8 +41,12 @@ impl Default for InfoSubset {
 
 impl InfoSubset {
     pub fn normalize(mut self) -> Self {
-        // need to read surface if reading any of one of these forms
-        if self.intersects(InfoSubset::READING_FORM | InfoSubset::NORMALIZED_FORM) {
+        // need to read surface if reading any of one of these forms:
+        // their accessors fall back to the surface when the stored form is empty
+        // (dictionary form: when the word is its own dictionary form)
+        if self.intersects(
+            InfoSubset::READING_FORM | InfoSubset::NORMALIZED_FORM | InfoSubset::DIC_FORM_WORD_ID,
+        ) {
             self |= InfoSubset::SURFACE
         }
 
